@@ -206,6 +206,8 @@ class Res:
 
     def check(self, cond, clause, site, inp, detail):
         self.d["oracle_checks"] += 1
+        oc = self.d.setdefault("oracle_clauses", {})
+        oc[clause] = oc.get(clause, 0) + 1
         if not cond:
             self.fail(clause, site, inp, detail)
 
